@@ -347,3 +347,33 @@ Definition cross_conversion_check : bool :=
 
 Definition cross_witnesses : list ((bytes * bytes) * (bytes * bytes)) :=
   flat_map (fun T => map (fun U => (U, T)) (filter (fun U => negb (cross_pair_ok U T)) declared_names)) safe_types.
+
+(* ---------------------------------------------------------------- (v) second-round clauses
+   (a) A parameter the reviewed entry marks Safe carries a value that is already trusted: its type must
+       mention a tracked type, or be embed.FS (which only a go:embed directive, i.e. the compiler, can
+       fill).  Widening such a parameter to an interface that clients can implement (fs.FS, io.Reader,
+       interface{}) opens the constructor to caller-supplied text.
+   (b) The safe types are immutable values: none of their exported methods has a pointer receiver
+       (a method like UnmarshalText / Scan / Set on *HTML lets a decoder overwrite the contents). *)
+Definition compiler_filled_types : list texpr := [TName (B "embed") (B "FS")].
+
+Definition safe_param_type_ok (t : texpr) : bool :=
+  mentions_tracked t || existsb (texpr_eqb (param_elem t)) compiler_filled_types.
+
+Definition param_safe_ok (f : api_func) (r : reviewed) (x : bytes * texpr) : bool :=
+  match param_role r (fst x) with
+  | Some Safe => safe_param_type_ok (snd x)
+  | _ => true
+  end.
+
+Definition func_safe_params_ok (f : api_func) : bool :=
+  match lookup_reviewed f with
+  | None => true
+  | Some r => forallb (param_safe_ok f r) (f_params f)
+  end.
+
+Definition func_not_mutator_ok (f : api_func) : bool :=
+  negb (f_recv_ptr f && mem_name2 (f_pkg f, f_recv f) safe_types).
+
+Definition api_second_round_check : bool :=
+  forallb func_safe_params_ok gen_funcs && forallb func_not_mutator_ok gen_funcs.
